@@ -14,6 +14,7 @@ CONSTANTS
   Pres = {4}
   N0s = {0}
   Contig = FALSE
+  DropStale = FALSE
 VIEW View
 INVARIANTS TypeOK C22Coded
 PROPERTIES C22RCoded C16M
